@@ -2,6 +2,7 @@
 import re
 import facts as F
 import sym as S
+from sym import SINK_TY
 import fc
 import refs as R
 import anchors as A
@@ -98,7 +99,7 @@ class WriterView:
     def sink_name(self):
         b = self.rl.body
         for prm in b["params"]:
-            if re.match(r"^&mut [A-Z]\w*$", prm["ty"]) and prm.get("pat"):
+            if re.match(SINK_TY, prm["ty"]) and prm.get("pat"):
                 return prm["pat"]["name"]
         return "writer"
 
@@ -542,9 +543,13 @@ def check_order(fx, rep, rule, wv):
     # classes map type from the local variable
     b = wv.rl.body
     cmty = None
-    for n in F.walk(b["body"]):
-        if n.get("k") == "Var" and n["name"] == "classes" or (n.get("k") == "Var" and "BTreeMap<&" in n.get("ty", "") and "ClassInProgress" in n.get("ty", "")):
-            cmty = n["ty"]
+    # (in the writer itself, or in the private function the record loop was moved to)
+    for body_ in [b] + [fx.bodies[q] for q in sorted(fx.reachable([b["path"]])) if q != b["path"] and fx.bodies[q]["krate"] == "proguard" and "::cache::" in q]:
+        for n in F.walk(body_["body"]):
+            if n.get("k") == "Var" and n["name"] == "classes" or (n.get("k") == "Var" and "BTreeMap<&" in n.get("ty", "") and "ClassInProgress" in n.get("ty", "")):
+                cmty = n["ty"]
+                break
+        if cmty is not None:
             break
     rep.check(rule, "%s/container/classes" % rule, cmty is not None and cmty.startswith("std::collections::BTreeMap<&") and "ClassInProgress" in cmty,
               loc=F.short_file(b["sp"]), found="classes: %s" % cmty, expected="BTreeMap<&str, ClassInProgress> (sorted by obfuscated class name)")
